@@ -1,1 +1,831 @@
+/-
+  Lemmas for C09 (`Thm/C09.lean`).
+
+  The restarting machine and the never-restarting machine are compared through an *erasure* `E k` of a state of the
+  MVCC machine: of a finished (committed / rolled-back) transaction only the status is kept, of an active one
+  everything, with its `startTs` counted from position `k` of the commit log; the first `k` entries of the commit
+  log are dropped.  Every operation of `Db.stepCore` commutes with the erasure (`stepCore_E`), for every setting of
+  the defect flags of `Model/Db.lean`: no operation reads more of a state than its erasure.
+-/
 import AxVerif.Model.Reopen
+namespace AxVerif.Reopen
+open AxVerif.Db
+
+/-! ### erasure -/
+
+def dummySnap : Snapshot := ⟨0, Option.none, [], []⟩
+
+def eraseTxn (k : Nat) (t : Txn) : Txn :=
+  if t.status = .active then { t with startTs := t.startTs - k } else ⟨dummySnap, t.status, [], 0⟩
+
+def E (k : Nat) (σ : Db.State) : Db.State := { σ with txns := σ.txns.map (eraseTxn k), clog := σ.clog.drop k }
+
+theorem eraseTxn_status (k : Nat) (t : Txn) : (eraseTxn k t).status = t.status := by
+  unfold eraseTxn; split <;> rfl
+
+theorem eraseTxn_active {k : Nat} {t : Txn} (h : t.status = .active) :
+    eraseTxn k t = { t with startTs := t.startTs - k } := by
+  unfold eraseTxn; simp [h]
+
+theorem eraseTxn_dead {k : Nat} {t : Txn} (h : t.status ≠ .active) :
+    eraseTxn k t = ⟨dummySnap, t.status, [], 0⟩ := by
+  unfold eraseTxn; simp [h]
+
+theorem eraseTxn_idem (k : Nat) (t : Txn) : eraseTxn 0 (eraseTxn k t) = eraseTxn k t := by
+  by_cases h : t.status = .active
+  · rw [eraseTxn_active h, eraseTxn_active (by simpa using h)]
+    simp
+  · rw [eraseTxn_dead h, eraseTxn_dead (by simpa using h)]
+
+theorem E_idem (k : Nat) (σ : Db.State) : E 0 (E k σ) = E k σ := by
+  simp [E, eraseTxn_idem, Function.comp_def]
+
+@[simp] theorem E_cat (k : Nat) (σ : Db.State) : (E k σ).cat = σ.cat := rfl
+@[simp] theorem E_rows (k : Nat) (σ : Db.State) : (E k σ).rows = σ.rows := rfl
+@[simp] theorem E_lc (k : Nat) (σ : Db.State) : (E k σ).lastCommitted = σ.lastCommitted := rfl
+@[simp] theorem E_sessions (k : Nat) (σ : Db.State) : (E k σ).sessions = σ.sessions := rfl
+@[simp] theorem E_clock (k : Nat) (σ : Db.State) : (E k σ).clock = σ.clock := rfl
+@[simp] theorem E_index (k : Nat) (σ : Db.State) : (E k σ).index = σ.index := rfl
+@[simp] theorem E_txns (k : Nat) (σ : Db.State) : (E k σ).txns = σ.txns.map (eraseTxn k) := rfl
+@[simp] theorem E_clog (k : Nat) (σ : Db.State) : (E k σ).clog = σ.clog.drop k := rfl
+
+theorem E_txns_length (k : Nat) (σ : Db.State) : (E k σ).txns.length = σ.txns.length := by simp
+
+theorem E_get (k : Nat) (σ : Db.State) (i : Nat) : (E k σ).txns[i]? = (σ.txns[i]?).map (eraseTxn k) := by simp
+
+/-- the transactions with a given status are the same after erasure -/
+theorem idsWith_erase (st : Status) (k : Nat) : ∀ (txns : List Txn) (i : Nat),
+    idsWith st (txns.map (eraseTxn k)) i = idsWith st txns i
+  | [], _ => rfl
+  | t :: ts, i => by
+    simp only [List.map_cons, idsWith, eraseTxn_status, idsWith_erase st k ts (i + 1)]
+
+theorem freshSnap_E (D : Db.Defects) (k : Nat) (σ : Db.State) : (E k σ).freshSnap D = σ.freshSnap D := by
+  simp [State.freshSnap, idsWith_erase]
+
+/-! ### well-formedness needed for the erasure to commute with the operations -/
+
+structure Wf (k : Nat) (σ : Db.State) : Prop where
+  kle : k ≤ σ.clog.length
+  act : ∀ (i : Nat) (t : Txn), σ.txns[i]? = some t → t.status = .active → k ≤ t.startTs
+  /-- every session holds an active transaction -/
+  sessAct : ∀ (s : String) (tid : Nat), lookup s σ.sessions = some tid → ∃ t, σ.txns[tid]? = some t ∧ t.status = .active
+  /-- no two sessions hold the same transaction -/
+  sessInj : ∀ (s1 s2 : String) (tid : Nat), lookup s1 σ.sessions = some tid → lookup s2 σ.sessions = some tid → s1 = s2
+
+theorem Wf.erased {k : Nat} {σ : Db.State} (h : Wf k σ) : Wf 0 (E k σ) := by
+  refine ⟨Nat.zero_le _, fun _ _ _ _ => Nat.zero_le _, ?_, h.sessInj⟩
+  intro s tid hs
+  obtain ⟨t, ht, hact⟩ := h.sessAct s tid hs
+  exact ⟨eraseTxn k t, by simp [ht], by rw [eraseTxn_status]; exact hact⟩
+
+/-! ### the primitives of the coordinator commute with the erasure -/
+
+theorem map_erase_modify (k i : Nat) (f : Txn → Txn) (txns : List Txn)
+    (hf : ∀ t, eraseTxn 0 (f (eraseTxn k t)) = eraseTxn k (f t)) :
+    (txns.modify i f).map (eraseTxn k) = ((txns.map (eraseTxn k)).modify i f).map (eraseTxn 0) := by
+  apply List.ext_getElem?
+  intro j
+  simp only [List.getElem?_map, List.getElem?_modify]
+  cases txns[j]? with
+  | none => rfl
+  | some t =>
+    by_cases e : i = j
+    · simp [e, hf]
+    · simp [e, eraseTxn_idem]
+
+theorem erase_setStatus (k : Nat) (st : Status) (hst : st ≠ .active) (t : Txn) :
+    eraseTxn 0 ({ eraseTxn k t with status := st }) = eraseTxn k { t with status := st } := by
+  unfold eraseTxn
+  by_cases h : t.status = .active <;> simp [h, hst]
+
+theorem erase_addWs (k : Nat) (w : List Rid) (t : Txn) :
+    eraseTxn 0 ({ eraseTxn k t with ws := (eraseTxn k t).ws ++ w }) = eraseTxn k { t with ws := t.ws ++ w } := by
+  unfold eraseTxn
+  by_cases h : t.status = .active <;> simp [h]
+
+theorem E_setStatus (k tid : Nat) (st : Status) (hst : st ≠ .active) (txns : List Txn) :
+    (setStatus txns tid st).map (eraseTxn k) = (setStatus (txns.map (eraseTxn k)) tid st).map (eraseTxn 0) :=
+  map_erase_modify k tid _ txns (erase_setStatus k st hst)
+
+theorem beginTxn_E (D : Db.Defects) (k : Nat) (σ : Db.State) (hk : k ≤ σ.clog.length) :
+    E k (σ.beginTxn D).1 = E 0 ((E k σ).beginTxn D).1 ∧ (σ.beginTxn D).2 = ((E k σ).beginTxn D).2 := by
+  constructor
+  · have hf := freshSnap_E D k σ
+    have hnew : ∀ n, eraseTxn n ⟨σ.freshSnap D, .active, [], σ.clog.length⟩ =
+        ⟨σ.freshSnap D, .active, [], σ.clog.length - n⟩ := by intro n; simp [eraseTxn]
+    have hnew0 : eraseTxn 0 ⟨σ.freshSnap D, .active, [], σ.clog.length - k⟩ =
+        ⟨σ.freshSnap D, .active, [], σ.clog.length - k⟩ := by simp [eraseTxn]
+    simp only [State.beginTxn, E] at hf ⊢
+    simp [eraseTxn_idem, Function.comp_def, hf, hnew, hnew0]
+  · simp [State.beginTxn]
+
+theorem abortTxn_E (k tid : Nat) (σ : Db.State) : E k (σ.abortTxn tid) = E 0 ((E k σ).abortTxn tid) := by
+  simp only [State.abortTxn, E, E_setStatus k tid .aborted (by decide)]
+  simp
+
+theorem conflictIn_E (k : Nat) (clog : List (Nat × List Rid)) (t : Txn) (hact : t.status = .active)
+    (hk : k ≤ t.startTs) : conflictIn (clog.drop k) (eraseTxn k t) = conflictIn clog t := by
+  rw [eraseTxn_active hact]
+  simp only [conflictIn, List.drop_drop]
+  rw [show k + (t.startTs - k) = t.startTs by omega]
+
+theorem commitTxn_E (k tid : Nat) (σ : Db.State) (t : Txn) (ht : σ.txns[tid]? = some t) (hact : t.status = .active)
+    (hk : k ≤ t.startTs) (hkl : k ≤ σ.clog.length) :
+    E k (σ.commitTxn tid).1 = E 0 ((E k σ).commitTxn tid).1 ∧ (σ.commitTxn tid).2 = ((E k σ).commitTxn tid).2 := by
+  have hws : (eraseTxn k t).ws = t.ws := by rw [eraseTxn_active hact]
+  simp only [State.commitTxn, ht, E_get, Option.map_some, E_clog, conflictIn_E k σ.clog t hact hk]
+  by_cases hc : conflictIn σ.clog t = true
+  · simp only [hc, if_true]
+    refine ⟨?_, trivial⟩
+    simp only [E, E_setStatus k tid .aborted (by decide)]
+    simp
+  · simp only [hc, Bool.false_eq_true, if_false]
+    refine ⟨?_, trivial⟩
+    simp only [E, E_setStatus k tid .committed (by decide), hws]
+    simp [List.drop_append_of_le_length hkl]
+
+theorem snapOf_E (k tid : Nat) (σ : Db.State) (t : Txn) (ht : σ.txns[tid]? = some t) (hact : t.status = .active) :
+    (E k σ).snapOf tid = σ.snapOf tid := by
+  simp [State.snapOf, ht, eraseTxn_active hact]
+
+theorem write_E (D : Db.Defects) (k tid : Nat) (σ : Db.State) (t : Txn) (ht : σ.txns[tid]? = some t)
+    (hact : t.status = .active) (es : List Effect) :
+    E k (σ.write D tid es) = E 0 ((E k σ).write D tid es) := by
+  have hs := snapOf_E k tid σ t ht hact
+  simp only [State.write, hs, E_rows, E_cat, E_index, E_txns]
+  by_cases hw : D.writeSetNeverRecorded = true
+  · simp [hw, E, eraseTxn_idem, Function.comp_def]
+  · simp only [hw, Bool.false_eq_true, if_false]
+    have := map_erase_modify k tid (fun t => { t with ws := t.ws ++ es.map Effect.rid }) σ.txns
+      (fun t => erase_addWs k (es.map Effect.rid) t)
+    simp [E, this]
+
+theorem stmt_E (D : Db.Defects) (k tid : Nat) (σ : Db.State) (t : Txn) (ht : σ.txns[tid]? = some t)
+    (hact : t.status = .active) (j0 : Nat) (st : Stmt) :
+    E k (σ.stmt D tid j0 st).1 = E 0 ((E k σ).stmt D tid j0 st).1 ∧
+    (σ.stmt D tid j0 st).2 = ((E k σ).stmt D tid j0 st).2 := by
+  have hs := snapOf_E k tid σ t ht hact
+  simp only [State.stmt, hs, E_rows, E_cat, E_index, E_clock]
+  generalize planStmt _ σ.cat σ.clock j0 (view D (σ.snapOf tid) σ.rows) st = p
+  by_cases h : (p.out.isErr && !D.stmtNotAtomicInSession) = true
+  · simp only [h, if_true]
+    exact ⟨(E_idem k σ).symm, trivial⟩
+  · simp only [h, Bool.false_eq_true, if_false]
+    exact ⟨write_E D k tid σ t ht hact _, trivial⟩
+
+/-! ### what the operations leave alone: statuses, start times, commit log, sessions -/
+
+/-- `σ'` has the transactions of `σ` with the same statuses and start times, the same commit log and sessions -/
+structure Same (σ σ' : Db.State) : Prop where
+  clog : σ'.clog = σ.clog
+  sessions : σ'.sessions = σ.sessions
+  fwd : ∀ (i : Nat) (t : Txn), σ.txns[i]? = some t → ∃ t', σ'.txns[i]? = some t' ∧ t'.status = t.status ∧ t'.startTs = t.startTs
+  bwd : ∀ (i : Nat) (t' : Txn), σ'.txns[i]? = some t' → ∃ t, σ.txns[i]? = some t ∧ t'.status = t.status ∧ t'.startTs = t.startTs
+
+theorem Same.refl (σ : Db.State) : Same σ σ :=
+  ⟨rfl, rfl, fun _ t h => ⟨t, h, rfl, rfl⟩, fun _ t h => ⟨t, h, rfl, rfl⟩⟩
+
+theorem Same.trans {σ σ' σ'' : Db.State} (h1 : Same σ σ') (h2 : Same σ' σ'') : Same σ σ'' := by
+  refine ⟨h2.clog.trans h1.clog, h2.sessions.trans h1.sessions, ?_, ?_⟩
+  · intro i t ht
+    obtain ⟨t', ht', e1, e2⟩ := h1.fwd i t ht
+    obtain ⟨t'', ht'', f1, f2⟩ := h2.fwd i t' ht'
+    exact ⟨t'', ht'', f1.trans e1, f2.trans e2⟩
+  · intro i t'' ht''
+    obtain ⟨t', ht', e1, e2⟩ := h2.bwd i t'' ht''
+    obtain ⟨t, ht, f1, f2⟩ := h1.bwd i t' ht'
+    exact ⟨t, ht, e1.trans f1, e2.trans f2⟩
+
+theorem Wf.same {k : Nat} {σ σ' : Db.State} (h : Wf k σ) (hs : Same σ σ') : Wf k σ' := by
+  refine ⟨by rw [hs.clog]; exact h.kle, ?_, ?_, ?_⟩
+  · intro i t' ht' hact
+    obtain ⟨t, ht, e1, e2⟩ := hs.bwd i t' ht'
+    rw [e2]; exact h.act i t ht (e1 ▸ hact)
+  · intro s tid hl
+    rw [hs.sessions] at hl
+    obtain ⟨t, ht, hact⟩ := h.sessAct s tid hl
+    obtain ⟨t', ht', e1, _⟩ := hs.fwd tid t ht
+    exact ⟨t', ht', e1.trans hact⟩
+  · intro s1 s2 tid h1 h2
+    rw [hs.sessions] at h1 h2
+    exact h.sessInj s1 s2 tid h1 h2
+
+theorem write_same (D : Db.Defects) (σ : Db.State) (tid : Nat) (es : List Effect) : Same σ (σ.write D tid es) := by
+  refine ⟨rfl, rfl, ?_, ?_⟩
+  · intro i t ht
+    simp only [State.write]
+    split
+    · exact ⟨t, ht, rfl, rfl⟩
+    · simp only [List.getElem?_modify, ht, Option.map_some]
+      by_cases e : tid = i <;> simp [e]
+  · intro i t' ht'
+    simp only [State.write] at ht'
+    split at ht'
+    · exact ⟨t', ht', rfl, rfl⟩
+    · simp only [List.getElem?_modify] at ht'
+      cases h : σ.txns[i]? with
+      | none => simp [h] at ht'
+      | some t =>
+        simp only [h, Option.map_eq_map, Option.map_some, Option.some.injEq] at ht'
+        refine ⟨t, rfl, ?_, ?_⟩ <;> (rw [← ht']; by_cases e : tid = i <;> simp [e])
+
+theorem stmt_same (D : Db.Defects) (σ : Db.State) (tid j0 : Nat) (st : Stmt) : Same σ (σ.stmt D tid j0 st).1 := by
+  simp only [State.stmt]
+  generalize planStmt _ σ.cat σ.clock j0 (view D (σ.snapOf tid) σ.rows) st = p
+  by_cases h : (p.out.isErr && !D.stmtNotAtomicInSession) = true
+  · simp only [h, if_true]
+    exact Same.refl σ
+  · simp only [h, Bool.false_eq_true, if_false]
+    exact write_same D σ tid _
+
+theorem same_get_active {σ σ' : Db.State} (hs : Same σ σ') {tid : Nat} {t : Txn} (ht : σ.txns[tid]? = some t)
+    (hact : t.status = .active) : ∃ t', σ'.txns[tid]? = some t' ∧ t'.status = .active := by
+  obtain ⟨t', ht', e1, _⟩ := hs.fwd tid t ht
+  exact ⟨t', ht', e1.trans hact⟩
+
+theorem batch_same (D : Db.Defects) (tid : Nat) : ∀ (sts : List Stmt) (σ : Db.State) (j0 : Nat),
+    Same σ (State.batch D σ tid j0 sts).1
+  | [], σ, _ => Same.refl σ
+  | st :: sts, σ, j0 => by
+    simp only [State.batch]
+    have h1 := stmt_same D σ tid j0 st
+    generalize σ.stmt D tid j0 st = r at h1
+    obtain ⟨σ', p⟩ := r
+    simp only
+    cases hp : p.out with
+    | err e => exact h1
+    | okN n => exact h1.trans (batch_same D tid sts σ' _)
+    | rows rs => exact h1.trans (batch_same D tid sts σ' _)
+
+theorem batch_E (D : Db.Defects) (k tid : Nat) : ∀ (sts : List Stmt) (σ : Db.State) (t : Txn) (j0 : Nat),
+    σ.txns[tid]? = some t → t.status = .active →
+    E k (State.batch D σ tid j0 sts).1 = E 0 (State.batch D (E k σ) tid j0 sts).1 ∧
+    (State.batch D σ tid j0 sts).2 = (State.batch D (E k σ) tid j0 sts).2
+  | [], σ, _, _, _, _ => ⟨(E_idem k σ).symm, rfl⟩
+  | st :: sts, σ, t, j0, ht, hact => by
+    simp only [State.batch]
+    obtain ⟨h1, h2⟩ := stmt_E D k tid σ t ht hact j0 st
+    have hsame := stmt_same D σ tid j0 st
+    have hsame' := stmt_same D (E k σ) tid j0 st
+    generalize σ.stmt D tid j0 st = r at h1 h2 hsame
+    generalize (E k σ).stmt D tid j0 st = r' at h1 h2 hsame'
+    obtain ⟨σ1, p⟩ := r
+    obtain ⟨σ1', p'⟩ := r'
+    simp only at h1 h2 hsame hsame'
+    subst h2
+    simp only
+    cases hp : p.out with
+    | err e => exact ⟨h1, rfl⟩
+    | okN n =>
+      simp only
+      obtain ⟨t1, ht1, hact1⟩ := same_get_active hsame ht hact
+      obtain ⟨g1, g2⟩ := batch_E D k tid sts σ1 t1 (j0 + countIns p.effs) ht1 hact1
+      -- the same batch from `σ1'`, whose erasure is the erasure of `σ1`
+      have ht' : (E k σ).txns[tid]? = some (eraseTxn k t) := by simp [ht]
+      obtain ⟨t1', ht1', hact1'⟩ := same_get_active hsame' ht' (by rw [eraseTxn_status]; exact hact)
+      obtain ⟨f1, f2⟩ := batch_E D 0 tid sts σ1' t1' (j0 + countIns p.effs) ht1' hact1'
+      rw [← h1] at f1 f2
+      have e2 := g2.trans f2.symm
+      refine ⟨?_, ?_⟩
+      · rw [g1, f1]
+      · simp only [e2]
+    | rows rs =>
+      simp only
+      obtain ⟨t1, ht1, hact1⟩ := same_get_active hsame ht hact
+      obtain ⟨g1, g2⟩ := batch_E D k tid sts σ1 t1 (j0 + countIns p.effs) ht1 hact1
+      have ht' : (E k σ).txns[tid]? = some (eraseTxn k t) := by simp [ht]
+      obtain ⟨t1', ht1', hact1'⟩ := same_get_active hsame' ht' (by rw [eraseTxn_status]; exact hact)
+      obtain ⟨f1, f2⟩ := batch_E D 0 tid sts σ1' t1' (j0 + countIns p.effs) ht1' hact1'
+      rw [← h1] at f1 f2
+      have e2 := g2.trans f2.symm
+      refine ⟨?_, ?_⟩
+      · rw [g1, f1]
+      · simp only [e2]
+
+theorem commitC_E (D : Db.Defects) (k tid : Nat) (σ : Db.State) (t : Txn) (ht : σ.txns[tid]? = some t)
+    (hact : t.status = .active) (hk : k ≤ t.startTs) (hkl : k ≤ σ.clog.length) :
+    E k (σ.commitC D tid).1 = E 0 ((E k σ).commitC D tid).1 ∧ (σ.commitC D tid).2 = ((E k σ).commitC D tid).2 := by
+  obtain ⟨h1, h2⟩ := commitTxn_E k tid σ t ht hact hk hkl
+  have hrows : ((E k σ).commitTxn tid).1.rows = (σ.commitTxn tid).1.rows := by
+    have := congrArg Db.State.rows h1
+    simpa using this.symm
+  have hfresh : ((E k σ).commitTxn tid).1.freshSnap D = (σ.commitTxn tid).1.freshSnap D := by
+    have := congrArg (Db.State.freshSnap D) h1
+    rw [freshSnap_E, freshSnap_E] at this
+    exact this.symm
+  simp only [State.commitC, ← h2, hrows, hfresh, E_cat]
+  by_cases hb : (σ.commitTxn tid).2 = true
+  · simp only [hb, if_true]
+    split
+    · exact ⟨abortTxn_E k tid σ, rfl⟩
+    · exact ⟨h1, rfl⟩
+  · simp only [hb, Bool.false_eq_true, if_false]
+    exact ⟨h1, trivial⟩
+
+/-! ### twins: a state and a state with the same erasure -/
+
+/-- `ρ` is an erased twin of `σ` -/
+def Tw (k : Nat) (σ ρ : Db.State) : Prop := E k σ = E 0 ρ
+
+theorem Tw.self (k : Nat) (σ : Db.State) : Tw k σ (E k σ) := (E_idem k σ).symm
+
+theorem Tw.get {k : Nat} {σ ρ : Db.State} (h : Tw k σ ρ) {i : Nat} {t : Txn} (ht : σ.txns[i]? = some t) :
+    ∃ t', ρ.txns[i]? = some t' ∧ eraseTxn k t = eraseTxn 0 t' := by
+  have := congrArg (fun s => s.txns[i]?) h
+  simp only [E_get, ht, Option.map_some] at this
+  cases h' : ρ.txns[i]? with
+  | none => simp [h'] at this
+  | some t' =>
+    simp only [h', Option.map_some, Option.some.injEq] at this
+    exact ⟨t', rfl, this⟩
+
+theorem Tw.active {k : Nat} {σ ρ : Db.State} (h : Tw k σ ρ) {i : Nat} {t : Txn} (ht : σ.txns[i]? = some t)
+    (hact : t.status = .active) : ∃ t', ρ.txns[i]? = some t' ∧ t'.status = .active := by
+  obtain ⟨t', ht', e⟩ := h.get ht
+  refine ⟨t', ht', ?_⟩
+  have := congrArg Txn.status e
+  rw [eraseTxn_status, eraseTxn_status] at this
+  rw [← this]; exact hact
+
+theorem Tw.sessions {k : Nat} {σ ρ : Db.State} (h : Tw k σ ρ) : ρ.sessions = σ.sessions := by
+  have := congrArg Db.State.sessions h
+  simpa using this.symm
+
+theorem Tw.length {k : Nat} {σ ρ : Db.State} (h : Tw k σ ρ) : ρ.txns.length = σ.txns.length := by
+  have := congrArg (fun s => s.txns.length) h
+  simpa using this.symm
+
+/-- how a one-sided commutation lemma turns into a statement about twins -/
+theorem Tw.lift {k : Nat} {σ ρ : Db.State} (h : Tw k σ ρ) (f : Db.State → Db.State)
+    (h1 : E k (f σ) = E 0 (f (E k σ))) (h2 : E 0 (f ρ) = E 0 (f (E 0 ρ))) : Tw k (f σ) (f ρ) := by
+  unfold Tw at *
+  rw [h1, h2, h]
+
+/-! ### session table -/
+
+theorem lookup_cons' (s k : String) (v : α) (l : List (String × α)) :
+    lookup s ((k, v) :: l) = if k = s then some v else lookup s l := by
+  simp [lookup]
+
+theorem lookup_erase' (s k : String) : ∀ (l : List (String × α)),
+    lookup s (erase k l) = if s = k then Option.none else lookup s l
+  | [] => by simp [erase, lookup]
+  | (k', v) :: rest => by
+    simp only [erase, lookup]
+    by_cases e : k' = k
+    · subst e
+      simp only [beq_self_eq_true, if_true]
+      rw [lookup_erase' s k' rest]
+      by_cases e2 : s = k'
+      · simp [e2]
+      · have : (k' == s) = false := by simpa using fun h => e2 h.symm
+        simp [e2, this]
+    · have hb : (k' == k) = false := by simpa using e
+      simp only [hb, Bool.false_eq_true, if_false, lookup]
+      rw [lookup_erase' s k rest]
+      by_cases e2 : s = k
+      · subst e2
+        have : (k' == s) = false := by simpa using e
+        simp [this]
+      · simp [e2]
+
+/-! ### well-formedness is kept -/
+
+theorem getElem?_lt' {l : List α} {t : α} {i : Nat} (h : l[i]? = some t) : i < l.length := by
+  by_cases e : i < l.length
+  · exact e
+  · rw [List.getElem?_eq_none (by omega)] at h; cases h
+
+theorem Wf.begin {k : Nat} {σ : Db.State} (D : Db.Defects) (h : Wf k σ) : Wf k (σ.beginTxn D).1 := by
+  refine ⟨h.kle, ?_, ?_, h.sessInj⟩
+  · intro i t ht hact
+    simp only [State.beginTxn] at ht
+    by_cases e : i < σ.txns.length
+    · rw [List.getElem?_append_left e] at ht
+      exact h.act i t ht hact
+    · have : i = σ.txns.length := by
+        have := getElem?_lt' ht
+        simp at this; omega
+      subst this
+      simp at ht
+      subst ht
+      exact h.kle
+  · intro s tid hl
+    obtain ⟨t, ht, hact⟩ := h.sessAct s tid hl
+    refine ⟨t, ?_, hact⟩
+    simp only [State.beginTxn]
+    rw [List.getElem?_append_left (getElem?_lt' ht)]
+    exact ht
+
+/-- a transaction is finished (or stays as it is when it does not exist) and no session refers to it any more -/
+theorem Wf.finish {k : Nat} {σ σ' : Db.State} (h : Wf k σ) (tid : Nat)
+    (hclog : k ≤ σ'.clog.length)
+    (htx : ∀ i, i ≠ tid → σ'.txns[i]? = σ.txns[i]?)
+    (htid : ∀ t', σ'.txns[tid]? = some t' → t'.status ≠ .active)
+    (hsess : ∀ s tid', lookup s σ'.sessions = some tid' → lookup s σ.sessions = some tid' ∧ tid' ≠ tid) :
+    Wf k σ' := by
+  refine ⟨hclog, ?_, ?_, ?_⟩
+  · intro i t ht hact
+    by_cases e : i = tid
+    · subst e; exact (htid t ht hact).elim
+    · rw [htx i e] at ht; exact h.act i t ht hact
+  · intro s tid' hl
+    obtain ⟨h1, h2⟩ := hsess s tid' hl
+    obtain ⟨t, ht, hact⟩ := h.sessAct s tid' h1
+    exact ⟨t, by rw [htx tid' h2]; exact ht, hact⟩
+  · intro s1 s2 tid' h1 h2
+    exact h.sessInj s1 s2 tid' (hsess s1 tid' h1).1 (hsess s2 tid' h2).1
+
+theorem setStatus_get_ne (txns : List Txn) (tid i : Nat) (st : Status) (e : i ≠ tid) :
+    (setStatus txns tid st)[i]? = txns[i]? := by
+  simp only [setStatus, List.getElem?_modify]
+  cases txns[i]? with
+  | none => rfl
+  | some t =>
+    have : ¬ tid = i := fun h => e h.symm
+    simp [this]
+
+theorem setStatus_get_self (txns : List Txn) (tid : Nat) (st : Status) (t' : Txn)
+    (h : (setStatus txns tid st)[tid]? = some t') : t'.status = st := by
+  simp only [setStatus, List.getElem?_modify] at h
+  cases h' : txns[tid]? with
+  | none => simp [h'] at h
+  | some t =>
+    simp only [h', Option.map_eq_map, Option.map_some, if_true, Option.some.injEq] at h
+    rw [← h]
+
+theorem commitTxn_get_ne (σ : Db.State) (tid i : Nat) (e : i ≠ tid) : (σ.commitTxn tid).1.txns[i]? = σ.txns[i]? := by
+  simp only [State.commitTxn]
+  split
+  · rfl
+  · split <;> exact setStatus_get_ne _ _ _ _ e
+
+theorem commitTxn_get_self (σ : Db.State) (tid : Nat) (t : Txn) (ht : σ.txns[tid]? = some t) (t' : Txn)
+    (h : (σ.commitTxn tid).1.txns[tid]? = some t') : t'.status ≠ .active := by
+  simp only [State.commitTxn, ht] at h
+  split at h
+  · rw [setStatus_get_self _ _ _ _ h]; decide
+  · rw [setStatus_get_self _ _ _ _ h]; decide
+
+theorem commitTxn_clog_le (σ : Db.State) (tid : Nat) : σ.clog.length ≤ (σ.commitTxn tid).1.clog.length := by
+  simp only [State.commitTxn]
+  split
+  · exact Nat.le_refl _
+  · split
+    · exact Nat.le_refl _
+    · simp
+
+theorem commitTxn_sessions' (σ : Db.State) (tid : Nat) : (σ.commitTxn tid).1.sessions = σ.sessions := by
+  simp only [State.commitTxn]
+  split
+  · rfl
+  · split <;> rfl
+
+theorem commitC_get_ne (D : Db.Defects) (σ : Db.State) (tid i : Nat) (e : i ≠ tid) :
+    (σ.commitC D tid).1.txns[i]? = σ.txns[i]? := by
+  simp only [State.commitC]
+  split
+  · split
+    · exact setStatus_get_ne _ _ _ _ e
+    · exact commitTxn_get_ne σ tid i e
+  · exact commitTxn_get_ne σ tid i e
+
+theorem commitC_get_self (D : Db.Defects) (σ : Db.State) (tid : Nat) (t : Txn) (ht : σ.txns[tid]? = some t) (t' : Txn)
+    (h : (σ.commitC D tid).1.txns[tid]? = some t') : t'.status ≠ .active := by
+  simp only [State.commitC] at h
+  split at h
+  · split at h
+    · rw [setStatus_get_self _ _ _ _ h]; decide
+    · exact commitTxn_get_self σ tid t ht t' h
+  · exact commitTxn_get_self σ tid t ht t' h
+
+theorem commitC_clog_le (D : Db.Defects) (σ : Db.State) (tid : Nat) : σ.clog.length ≤ (σ.commitC D tid).1.clog.length := by
+  simp only [State.commitC]
+  split
+  · split
+    · exact Nat.le_refl _
+    · exact commitTxn_clog_le σ tid
+  · exact commitTxn_clog_le σ tid
+
+theorem commitC_sessions (D : Db.Defects) (σ : Db.State) (tid : Nat) : (σ.commitC D tid).1.sessions = σ.sessions := by
+  simp only [State.commitC]
+  split
+  · split
+    · rfl
+    · exact commitTxn_sessions' σ tid
+  · exact commitTxn_sessions' σ tid
+
+/-- the transaction of session `s` is finished and the session ends -/
+theorem Wf.endSess {k : Nat} {σ σ' : Db.State} (h : Wf k σ) (s : String) (tid : Nat)
+    (hl : lookup s σ.sessions = some tid) (hclog : k ≤ σ'.clog.length) (hsess : σ'.sessions = erase s σ.sessions)
+    (htx : ∀ i, i ≠ tid → σ'.txns[i]? = σ.txns[i]?)
+    (htid : ∀ t', σ'.txns[tid]? = some t' → t'.status ≠ .active) : Wf k σ' := by
+  refine h.finish tid hclog htx htid ?_
+  intro s' tid' hl'
+  rw [hsess, lookup_erase'] at hl'
+  by_cases e : s' = s
+  · simp [e] at hl'
+  · simp only [e, if_false] at hl'
+    refine ⟨hl', ?_⟩
+    intro e2
+    subst e2
+    exact e (h.sessInj s' s tid' hl' hl)
+
+/-- an autocommit transaction: begun, worked in, finished -/
+theorem Wf.autoFinish {k : Nat} {σ σ2 σ3 : Db.State} (D : Db.Defects) (h : Wf k σ) (hs : Same (σ.beginTxn D).1 σ2)
+    (hclog : σ2.clog.length ≤ σ3.clog.length) (hsess : σ3.sessions = σ2.sessions)
+    (htx : ∀ i, i ≠ σ.txns.length → σ3.txns[i]? = σ2.txns[i]?)
+    (htid : ∀ t', σ3.txns[σ.txns.length]? = some t' → t'.status ≠ .active) : Wf k σ3 := by
+  have h2 : Wf k σ2 := (Wf.begin D h).same hs
+  refine h2.finish σ.txns.length (Nat.le_trans h2.kle hclog) htx htid ?_
+  intro s tid' hl
+  rw [hsess] at hl
+  refine ⟨hl, ?_⟩
+  rw [hs.sessions] at hl
+  obtain ⟨t, ht, _⟩ := h.sessAct s tid' hl
+  exact Nat.ne_of_lt (getElem?_lt' ht)
+
+theorem abortTxn_get_ne (σ : Db.State) (tid i : Nat) (e : i ≠ tid) : (σ.abortTxn tid).txns[i]? = σ.txns[i]? :=
+  setStatus_get_ne _ _ _ _ e
+
+theorem abortTxn_get_self (σ : Db.State) (tid : Nat) (t' : Txn) (h : (σ.abortTxn tid).txns[tid]? = some t') :
+    t'.status ≠ .active := by
+  rw [setStatus_get_self _ _ _ _ h]; decide
+
+theorem Wf.abortSess {k : Nat} {σ : Db.State} (h : Wf k σ) (s : String) (tid : Nat)
+    (hl : lookup s σ.sessions = some tid) : Wf k ((σ.abortTxn tid).endSession s) :=
+  h.endSess s tid hl h.kle rfl (fun i e => abortTxn_get_ne σ tid i e) (fun t' ht' => abortTxn_get_self σ tid t' ht')
+
+theorem stepCore_wf (D : Db.Defects) {k : Nat} {σ : Db.State} (h : Wf k σ) (op : Op) : Wf k (stepCore D σ op).1 := by
+  cases op with
+  | begin s =>
+    -- the state after an older transaction of the session has been rolled back
+    have h1 : ∃ σ1, (stepCore D σ (.begin s)).1 =
+          { (σ1.beginTxn D).1 with sessions := (s, (σ1.beginTxn D).2) :: (σ1.beginTxn D).1.sessions } ∧
+        Wf k σ1 ∧ lookup s σ1.sessions = Option.none := by
+      cases hl : lookup s σ.sessions with
+      | none => exact ⟨σ, by simp [stepCore, hl], h, hl⟩
+      | some old =>
+        refine ⟨(σ.abortTxn old).endSession s, by simp [stepCore, hl], h.abortSess s old hl, ?_⟩
+        simp [State.endSession, State.abortTxn, lookup_erase']
+    obtain ⟨σ1, e1, w1, n1⟩ := h1
+    rw [e1]
+    have w2 := Wf.begin D w1
+    refine ⟨w2.kle, w2.act, ?_, ?_⟩
+    · intro s' tid hl
+      simp only [lookup_cons'] at hl
+      by_cases c : s = s'
+      · simp only [c, if_true, Option.some.injEq] at hl
+        rw [← hl]
+        exact ⟨⟨σ1.freshSnap D, .active, [], σ1.clog.length⟩, by simp [State.beginTxn], rfl⟩
+      · simp only [c, if_false] at hl
+        exact w2.sessAct s' tid hl
+    · intro s1 s2 tid hl1 hl2
+      simp only [lookup_cons'] at hl1 hl2
+      have hlt : ∀ s' tid', lookup s' (σ1.beginTxn D).1.sessions = some tid' → tid' ≠ (σ1.beginTxn D).2 := by
+        intro s' tid' hl
+        obtain ⟨t, ht, _⟩ := w1.sessAct s' tid' hl
+        exact Nat.ne_of_lt (getElem?_lt' ht)
+      by_cases c1 : s = s1 <;> by_cases c2 : s = s2
+      · exact c1.symm.trans c2
+      · subst c1
+        simp only [if_true, c2, if_false, Option.some.injEq] at hl1 hl2
+        rw [← hl1] at hl2
+        exact (hlt s2 _ hl2 rfl).elim
+      · subst c2
+        simp only [c1, if_false, if_true, Option.some.injEq] at hl1 hl2
+        rw [← hl2] at hl1
+        exact (hlt s1 _ hl1 rfl).elim
+      · simp only [c1, if_false, c2] at hl1 hl2
+        exact w1.sessInj s1 s2 tid hl1 hl2
+  | commit s =>
+    simp only [stepCore]
+    cases hl : lookup s σ.sessions with
+    | none => exact h
+    | some tid =>
+      obtain ⟨t, ht, _⟩ := h.sessAct s tid hl
+      exact h.endSess s tid hl (Nat.le_trans h.kle (commitC_clog_le D σ tid))
+        (by simp [State.endSession, commitC_sessions]) (fun i e => commitC_get_ne D σ tid i e)
+        (fun t' ht' => commitC_get_self D σ tid t ht t' ht')
+  | rollback s =>
+    simp only [stepCore]
+    cases hl : lookup s σ.sessions with
+    | none => exact h
+    | some tid => exact h.abortSess s tid hl
+  | drop s =>
+    simp only [stepCore]
+    cases hl : lookup s σ.sessions with
+    | none => exact h
+    | some tid => exact h.abortSess s tid hl
+  | exec s st =>
+    simp only [stepCore]
+    cases hl : lookup s σ.sessions with
+    | none => exact h
+    | some tid => exact h.same (stmt_same D σ tid 0 st)
+  | auto st =>
+    simp only [stepCore]
+    have hs := stmt_same D (σ.beginTxn D).1 (σ.beginTxn D).2 0 st
+    generalize (σ.beginTxn D).1.stmt D (σ.beginTxn D).2 0 st = r at hs
+    obtain ⟨σ2, p⟩ := r
+    simp only at hs ⊢
+    have hid : (σ.beginTxn D).2 = σ.txns.length := rfl
+    have ht2 : ∃ t2, σ2.txns[σ.txns.length]? = some t2 := by
+      obtain ⟨t', ht', _⟩ := hs.fwd σ.txns.length ⟨σ.freshSnap D, .active, [], σ.clog.length⟩ (by simp [State.beginTxn])
+      exact ⟨t', ht'⟩
+    obtain ⟨t2, ht2⟩ := ht2
+    rw [hid]
+    split
+    · exact Wf.autoFinish D h hs (Nat.le_refl _) rfl (fun i e => abortTxn_get_ne σ2 _ i e)
+        (fun t' ht' => abortTxn_get_self σ2 _ t' ht')
+    · exact Wf.autoFinish D h hs (commitC_clog_le D σ2 _) (commitC_sessions D σ2 _)
+        (fun i e => commitC_get_ne D σ2 _ i e) (fun t' ht' => commitC_get_self D σ2 _ t2 ht2 t' ht')
+  | batch sts =>
+    simp only [stepCore]
+    have hs := batch_same D (σ.beginTxn D).2 sts (σ.beginTxn D).1 0
+    generalize State.batch D (σ.beginTxn D).1 (σ.beginTxn D).2 0 sts = r at hs
+    obtain ⟨σ2, outs, res⟩ := r
+    simp only at hs ⊢
+    have hid : (σ.beginTxn D).2 = σ.txns.length := rfl
+    have ht2 : ∃ t2, σ2.txns[σ.txns.length]? = some t2 := by
+      obtain ⟨t', ht', _⟩ := hs.fwd σ.txns.length ⟨σ.freshSnap D, .active, [], σ.clog.length⟩ (by simp [State.beginTxn])
+      exact ⟨t', ht'⟩
+    obtain ⟨t2, ht2⟩ := ht2
+    rw [hid]
+    cases res with
+    | some e =>
+      exact Wf.autoFinish D h hs (Nat.le_refl _) rfl (fun i e => abortTxn_get_ne σ2 _ i e)
+        (fun t' ht' => abortTxn_get_self σ2 _ t' ht')
+    | none =>
+      exact Wf.autoFinish D h hs (commitC_clog_le D σ2 _) (commitC_sessions D σ2 _)
+        (fun i e => commitC_get_ne D σ2 _ i e) (fun t' ht' => commitC_get_self D σ2 _ t2 ht2 t' ht')
+  | tick =>
+    simp only [stepCore]
+    have hid : (σ.beginTxn D).2 = σ.txns.length := rfl
+    rw [hid]
+    exact Wf.autoFinish D h (Same.refl _) (commitTxn_clog_le _ _) (commitTxn_sessions' _ _)
+      (fun i e => commitTxn_get_ne _ _ i e)
+      (fun t' ht' => commitTxn_get_self _ _ ⟨σ.freshSnap D, .active, [], σ.clog.length⟩ (by simp [State.beginTxn]) t' ht')
+  | nop => exact h
+
+/-! ### twins stay twins -/
+
+theorem tw_begin (D : Db.Defects) {k : Nat} {σ ρ : Db.State} (h : Tw k σ ρ) (hk : k ≤ σ.clog.length) :
+    Tw k (σ.beginTxn D).1 (ρ.beginTxn D).1 ∧ (σ.beginTxn D).2 = (ρ.beginTxn D).2 := by
+  refine ⟨h.lift (fun s => (s.beginTxn D).1) (beginTxn_E D k σ hk).1 (beginTxn_E D 0 ρ (Nat.zero_le _)).1, ?_⟩
+  simp only [State.beginTxn]
+  exact h.length.symm
+
+theorem tw_abort {k : Nat} {σ ρ : Db.State} (h : Tw k σ ρ) (tid : Nat) : Tw k (σ.abortTxn tid) (ρ.abortTxn tid) :=
+  h.lift (fun s => s.abortTxn tid) (abortTxn_E k tid σ) (abortTxn_E 0 tid ρ)
+
+theorem tw_sessions {k : Nat} {σ ρ : Db.State} (h : Tw k σ ρ) (f : List (String × Nat) → List (String × Nat)) :
+    Tw k { σ with sessions := f σ.sessions } { ρ with sessions := f ρ.sessions } := by
+  have hs := h.sessions
+  unfold Tw E at *
+  simp only [hs] at h ⊢
+  injection h with h1 h2 h3 h4 h5 h6 h7 h8
+  simp [h1, h2, h3, h4, h5, h7, h8]
+
+theorem tw_commitC (D : Db.Defects) {k : Nat} {σ ρ : Db.State} (h : Tw k σ ρ) (tid : Nat) (t : Txn)
+    (ht : σ.txns[tid]? = some t) (hact : t.status = .active) (hk : k ≤ t.startTs) (hkl : k ≤ σ.clog.length) :
+    Tw k (σ.commitC D tid).1 (ρ.commitC D tid).1 ∧ (σ.commitC D tid).2 = (ρ.commitC D tid).2 := by
+  obtain ⟨t', ht', hact'⟩ := h.active ht hact
+  obtain ⟨a1, a2⟩ := commitC_E D k tid σ t ht hact hk hkl
+  obtain ⟨b1, b2⟩ := commitC_E D 0 tid ρ t' ht' hact' (Nat.zero_le _) (Nat.zero_le _)
+  refine ⟨h.lift (fun s => (s.commitC D tid).1) a1 b1, ?_⟩
+  rw [a2, b2, show E k σ = E 0 ρ from h]
+
+theorem tw_commitTxn {k : Nat} {σ ρ : Db.State} (h : Tw k σ ρ) (tid : Nat) (t : Txn)
+    (ht : σ.txns[tid]? = some t) (hact : t.status = .active) (hk : k ≤ t.startTs) (hkl : k ≤ σ.clog.length) :
+    Tw k (σ.commitTxn tid).1 (ρ.commitTxn tid).1 := by
+  obtain ⟨t', ht', hact'⟩ := h.active ht hact
+  exact h.lift (fun s => (s.commitTxn tid).1) (commitTxn_E k tid σ t ht hact hk hkl).1
+    (commitTxn_E 0 tid ρ t' ht' hact' (Nat.zero_le _) (Nat.zero_le _)).1
+
+theorem tw_stmt (D : Db.Defects) {k : Nat} {σ ρ : Db.State} (h : Tw k σ ρ) (tid : Nat) (t : Txn)
+    (ht : σ.txns[tid]? = some t) (hact : t.status = .active) (j0 : Nat) (st : Stmt) :
+    Tw k (σ.stmt D tid j0 st).1 (ρ.stmt D tid j0 st).1 ∧ (σ.stmt D tid j0 st).2 = (ρ.stmt D tid j0 st).2 := by
+  obtain ⟨t', ht', hact'⟩ := h.active ht hact
+  obtain ⟨a1, a2⟩ := stmt_E D k tid σ t ht hact j0 st
+  obtain ⟨b1, b2⟩ := stmt_E D 0 tid ρ t' ht' hact' j0 st
+  refine ⟨h.lift (fun s => (s.stmt D tid j0 st).1) a1 b1, ?_⟩
+  rw [a2, b2, show E k σ = E 0 ρ from h]
+
+theorem tw_batch (D : Db.Defects) {k : Nat} {σ ρ : Db.State} (h : Tw k σ ρ) (tid : Nat) (t : Txn)
+    (ht : σ.txns[tid]? = some t) (hact : t.status = .active) (j0 : Nat) (sts : List Stmt) :
+    Tw k (State.batch D σ tid j0 sts).1 (State.batch D ρ tid j0 sts).1 ∧
+    (State.batch D σ tid j0 sts).2 = (State.batch D ρ tid j0 sts).2 := by
+  obtain ⟨t', ht', hact'⟩ := h.active ht hact
+  obtain ⟨a1, a2⟩ := batch_E D k tid sts σ t j0 ht hact
+  obtain ⟨b1, b2⟩ := batch_E D 0 tid sts ρ t' j0 ht' hact'
+  refine ⟨h.lift (fun s => (State.batch D s tid j0 sts).1) a1 b1, ?_⟩
+  rw [a2, b2, show E k σ = E 0 ρ from h]
+
+theorem begin_new_active (D : Db.Defects) (σ : Db.State) :
+    (σ.beginTxn D).1.txns[(σ.beginTxn D).2]? = some ⟨σ.freshSnap D, .active, [], σ.clog.length⟩ := by
+  simp [State.beginTxn]
+
+/-- **Every operation of the MVCC machine commutes with the erasure**: twins stay twins and answer alike. -/
+theorem stepCore_tw (D : Db.Defects) {k : Nat} {σ ρ : Db.State} (h : Tw k σ ρ) (w : Wf k σ) (op : Op) :
+    Tw k (stepCore D σ op).1 (stepCore D ρ op).1 ∧ (stepCore D σ op).2 = (stepCore D ρ op).2 := by
+  have hsess := h.sessions
+  cases op with
+  | begin s =>
+    simp only [stepCore, hsess]
+    cases hl : lookup s σ.sessions with
+    | none =>
+      simp only
+      obtain ⟨h2, h3⟩ := tw_begin D h w.kle
+      refine ⟨?_, trivial⟩
+      rw [← h3]
+      exact tw_sessions h2 (fun l => (s, (σ.beginTxn D).2) :: l)
+    | some old =>
+      simp only
+      have h1 : Tw k ((σ.abortTxn old).endSession s) ((ρ.abortTxn old).endSession s) :=
+        tw_sessions (tw_abort h old) (erase s)
+      obtain ⟨h2, h3⟩ := tw_begin D h1 w.kle
+      refine ⟨?_, trivial⟩
+      rw [← h3]
+      exact tw_sessions h2 (fun l => (s, (((σ.abortTxn old).endSession s).beginTxn D).2) :: l)
+  | commit s =>
+    simp only [stepCore, hsess]
+    cases hl : lookup s σ.sessions with
+    | none => exact ⟨h, rfl⟩
+    | some tid =>
+      obtain ⟨t, ht, hact⟩ := w.sessAct s tid hl
+      obtain ⟨h2, h3⟩ := tw_commitC D h tid t ht hact (w.act tid t ht hact) w.kle
+      simp only [h3]
+      exact ⟨tw_sessions h2 (erase s), trivial⟩
+  | rollback s =>
+    simp only [stepCore, hsess]
+    cases hl : lookup s σ.sessions with
+    | none => exact ⟨h, rfl⟩
+    | some tid => exact ⟨tw_sessions (tw_abort h tid) (erase s), rfl⟩
+  | drop s =>
+    simp only [stepCore, hsess]
+    cases hl : lookup s σ.sessions with
+    | none => exact ⟨h, rfl⟩
+    | some tid => exact ⟨tw_sessions (tw_abort h tid) (erase s), rfl⟩
+  | exec s st =>
+    simp only [stepCore, hsess]
+    cases hl : lookup s σ.sessions with
+    | none => exact ⟨h, rfl⟩
+    | some tid =>
+      obtain ⟨t, ht, hact⟩ := w.sessAct s tid hl
+      obtain ⟨h2, h3⟩ := tw_stmt D h tid t ht hact 0 st
+      simp only [h3]
+      exact ⟨h2, trivial⟩
+  | auto st =>
+    simp only [stepCore]
+    obtain ⟨b1, b2⟩ := tw_begin D h w.kle
+    have hnew := begin_new_active D σ
+    obtain ⟨s1, s2⟩ := tw_stmt D b1 _ _ hnew rfl 0 st
+    have hsame := stmt_same D (σ.beginTxn D).1 (σ.beginTxn D).2 0 st
+    rw [← b2]
+    generalize (σ.beginTxn D).1.stmt D (σ.beginTxn D).2 0 st = r at s1 s2 hsame
+    generalize (ρ.beginTxn D).1.stmt D (σ.beginTxn D).2 0 st = r' at s1 s2
+    obtain ⟨σ2, p⟩ := r
+    obtain ⟨ρ2, p'⟩ := r'
+    simp only at s1 s2 hsame ⊢
+    subst s2
+    obtain ⟨t2, ht2, e1, e2⟩ := hsame.fwd _ _ hnew
+    by_cases he : p.out.isErr = true
+    · simp only [he, if_true]
+      exact ⟨tw_abort s1 _, trivial⟩
+    · simp only [he, Bool.false_eq_true, if_false]
+      obtain ⟨c1, c2⟩ := tw_commitC D s1 (σ.beginTxn D).2 t2 ht2 e1
+        (by rw [e2]; exact w.kle) (by rw [hsame.clog]; exact w.kle)
+      simp only [c2]
+      exact ⟨c1, trivial⟩
+  | batch sts =>
+    simp only [stepCore]
+    obtain ⟨b1, b2⟩ := tw_begin D h w.kle
+    have hnew := begin_new_active D σ
+    obtain ⟨s1, s2⟩ := tw_batch D b1 _ _ hnew rfl 0 sts
+    have hsame := batch_same D (σ.beginTxn D).2 sts (σ.beginTxn D).1 0
+    rw [← b2]
+    generalize State.batch D (σ.beginTxn D).1 (σ.beginTxn D).2 0 sts = r at s1 s2 hsame
+    generalize State.batch D (ρ.beginTxn D).1 (σ.beginTxn D).2 0 sts = r' at s1 s2
+    obtain ⟨σ2, outs, res⟩ := r
+    obtain ⟨ρ2, outs', res'⟩ := r'
+    simp only at s1 s2 hsame ⊢
+    obtain ⟨s2a, s2b⟩ := Prod.mk.inj s2
+    subst s2a s2b
+    obtain ⟨t2, ht2, e1, e2⟩ := hsame.fwd _ _ hnew
+    cases res with
+    | some e => exact ⟨tw_abort s1 _, rfl⟩
+    | none =>
+      simp only
+      obtain ⟨c1, c2⟩ := tw_commitC D s1 (σ.beginTxn D).2 t2 ht2 e1
+        (by rw [e2]; exact w.kle) (by rw [hsame.clog]; exact w.kle)
+      simp only [c2]
+      exact ⟨c1, trivial⟩
+  | tick =>
+    simp only [stepCore]
+    obtain ⟨b1, b2⟩ := tw_begin D h w.kle
+    rw [← b2]
+    exact ⟨tw_commitTxn b1 _ _ (begin_new_active D σ) rfl w.kle w.kle, trivial⟩
+  | nop => exact ⟨h, rfl⟩
+
+end AxVerif.Reopen
